@@ -3,16 +3,17 @@ package main
 // JSON shapes of the "program" family: scenarios in, results out.
 
 type pMsgSpec struct {
-	U     *int        `json:"u,omitempty"`
-	B     string      `json:"b,omitempty"`
-	S     string      `json:"s,omitempty"`
-	Cmds  []*pCmdSpec `json:"cmds,omitempty"`
-	OK    *bool       `json:"ok,omitempty"` // exec: default true
-	CB    bool        `json:"cb,omitempty"`
-	Pause bool        `json:"pause,omitempty"` // exec: block inside the command until released (label exec:<idx>)
-	Read  int         `json:"read,omitempty"`
-	W     int         `json:"w,omitempty"`
-	H     int         `json:"h,omitempty"`
+	U       *int        `json:"u,omitempty"`
+	B       string      `json:"b,omitempty"`
+	S       string      `json:"s,omitempty"`
+	Cmds    []*pCmdSpec `json:"cmds,omitempty"`
+	OK      *bool       `json:"ok,omitempty"` // exec: default true
+	CB      bool        `json:"cb,omitempty"`
+	Pause   bool        `json:"pause,omitempty"` // exec: block inside the command until released (label exec:<idx>)
+	Read    int         `json:"read,omitempty"`
+	CloseIn bool        `json:"close_in,omitempty"` // exec: the command closes the program's input (the read end it was given)
+	W       int         `json:"w,omitempty"`
+	H       int         `json:"h,omitempty"`
 }
 
 type pCmdSpec struct {
@@ -100,7 +101,7 @@ type pScenario struct {
 	Gomaxprocs int              `json:"gomaxprocs,omitempty"`
 	ParallelOK bool             `json:"parallel_ok,omitempty"`
 	Isolate    bool             `json:"isolate,omitempty"` // run in a child harness process
-	Child   bool `json:"child,omitempty"` // set by runIsolated: this process runs exactly this one scenario
+	Child      bool             `json:"child,omitempty"`   // set by runIsolated: this process runs exactly this one scenario
 	Writes     bool             `json:"writes,omitempty"`  // report the time and size of every Write call on the output
 	Opts       pOpts            `json:"opts"`
 	Input      pInput           `json:"input"`
